@@ -253,6 +253,7 @@ func classify(pats []string, q rt.Req, host string, want ref.Result) {
 func genCase(t *rapid.T) *Case {
 	c := &Case{}
 	c.G.TS = gen.Pick(t, []int{rt.TSNone, rt.TSNone, rt.TSIgnore, rt.TSRedirect}, "globalTS")
+	c.G.OneTxn = gen.Chance(t, 1, 4, "onetxn")
 	n := gen.IntR(t, 1, 8, "nroutes")
 	var pool []string
 	for i := 0; i < n; i++ {
